@@ -145,6 +145,7 @@ PLUGIN_PROPERTIES = {
     # which properties depend on which plugin's tables (None = all)
     "t00_core.py": ["C01", "C02", "C03", "C04", "C05", "C06", "C07", "C08", "C12", "C13", "C14", "C19"],
     "t04_wrappers.py": ["C04", "C13"],
+    "t06_hookkeys.py": ["C06", "C12", "C19"],
     "t11_configtext.py": ["C11", "C14"],
     "t15_logging.py": ["C15"],
     "t16_sql.py": ["C16"],
